@@ -402,3 +402,128 @@ def gift_drops(ctx):
                                                                 kind=kind, policy=policy, drop_after=k))
     finally:
         gc.enable()
+
+
+# ------------------------------------------------------------------------------------------------------------
+# what one Broker forgets when the connection is lost, beyond the reference tables: the calls that were parsed but never
+# run (inboundDeliveryQueue) with their activeLocalCalls entries, and the gift tables -- against the model lib/Conn.v
+# (qstep / qfinish).  A pair of real Brokers on the synchronous Loopback transport of foolscap's own tests; k1 calls are
+# RUNNING (their method returned a Deferred that never fires), k2 callRemote + k3 callRemoteOnly are parsed and queued (the
+# eventual queue has not run), g gifts are registered; then the connection is given up in one of three ways.
+def conn_tables_case(k1, k2, k3, g, how):
+    from types import SimpleNamespace
+    from twisted.internet import defer
+    from twisted.python import failure as tfail
+    from twisted.internet.error import ConnectionLost
+    E.reset_clock()
+    tb, cb = E.broker_pair()
+
+    class T(Referenceable):
+        def remote_slow(self):
+            return defer.Deferred()
+
+        def remote_fast(self, x=None):
+            return 1
+    t = T()
+    tr = tb.getTrackerForMyReference(t.processUniqueID(), t)
+    tr.send()
+    rr = cb.getTrackerForYourReference(tr.clid, None).getRef()
+    ops = []
+    for i in range(k1):
+        rr.callRemote("slow").addErrback(lambda f: None)
+    ids_before = set()
+    E.turn()
+    running = sorted(tb.activeLocalCalls)
+    for rid in running:
+        ops += [("QCall", rid), ("QRun",)]
+    before = set(tb.activeLocalCalls)
+    for i in range(k2):
+        rr.callRemote("fast", LThing("arg")).addErrback(lambda f: None)
+    for i in range(k3):
+        rr.callRemoteOnly("fast", LThing("arg"))
+    queued = [d.reqID for d, rd in tb.inboundDeliveryQueue]
+    ops += [("QCall", rid) for rid in queued]
+    for i in range(g):
+        gid = tb.makeGift(SimpleNamespace(tracker=SimpleNamespace(broker=cb, clid=100 + i)))
+        ops.append(("QGift", gid))
+    obs0 = dict(inq=queued, active=sorted(tb.activeLocalCalls), gifts=len(tb.myGifts), giftids=len(tb.myGiftsByGiftID))
+    why = tfail.Failure(ConnectionLost())
+    if how == "connectionLost":
+        tb.connectionLost(why)
+    elif how == "shutdown":
+        tb.transport.loseConnection = lambda *a: None      # the transport never reports the loss
+        tb.shutdown(why)
+    else:
+        tb.transport.loseConnection = lambda *a: None
+        tb.connectionTimedOut()
+    obs1 = dict(inq=[d.reqID for d, rd in tb.inboundDeliveryQueue], active=sorted(tb.activeLocalCalls), gifts=len(tb.myGifts),
+                giftids=len(tb.myGiftsByGiftID))
+    E.turn()
+    obs2 = dict(inq=[d.reqID for d, rd in tb.inboundDeliveryQueue], active=sorted(tb.activeLocalCalls), gifts=len(tb.myGifts),
+                giftids=len(tb.myGiftsByGiftID))
+    problems = []
+    cfg = "%d running calls, %d + %d parsed-but-not-run calls (callRemote + callRemoteOnly), %d gifts, connection given up by %s" % (k1, k2, k3, g, how)
+    for where, o in (("right after", obs1), ("one turn after", obs2)):
+        if o["inq"] or o["gifts"] or o["giftids"] or o["active"] != running:
+            problems.append(("oracle/dead-broker-keeps-undelivered-calls" if (o["inq"] or o["active"] != running) else "oracle/table-survives-connection-loss",
+                             "%s the Broker finished it still holds: inboundDeliveryQueue %r, activeLocalCalls %r (running calls: %r), "
+                             "myGifts %d, myGiftsByGiftID %d; %s" % (where, o["inq"], o["active"], running, o["gifts"], o["giftids"], cfg)))
+            break
+    try:
+        cb.connectionLost(why)
+    except Exception:
+        pass
+    E.turn()
+    return ops, obs0, obs1, problems
+
+
+def conn_tables(ctx, model_ok):
+    from harness import common
+    import itertools
+    cases = []
+    seen = set()
+    with quiet():
+        for k1, k2, k3, g in itertools.product((0, 1, 2), (0, 1, 2), (0, 2), (0, 1, 2)):
+            for how in ("connectionLost", "shutdown", "timeout"):
+                try:
+                    ops, obs0, obs1, problems = conn_tables_case(k1, k2, k3, g, how)
+                except Exception:
+                    import traceback
+                    ctx.fail("oracle/loopback-exception", "conn-tables scenario raised: %s" % traceback.format_exc()[-800:],
+                             replay=dict(scenario="conn-tables", k=[k1, k2, k3, g], how=how))
+                    return
+                ctx.case(["conn-tables", k1, k2, k3, g, how], nontrivial=bool(k1 and (k2 or k3)))
+                ctx.hist("conn_tables_outcome", "held" if not problems else problems[0][0])
+                for sig, text in problems:
+                    if sig not in seen:
+                        seen.add(sig)
+                        ctx.fail(sig, text, replay=dict(scenario="a Broker with running calls, parsed-but-not-run calls and gifts gives the "
+                                                        "connection up", running=k1, queued_call=k2, queued_callonly=k3, gifts=g, how=how))
+                cases.append((ops, obs0, obs1, (k1, k2, k3, g, how)))
+    if not model_ok or not cases:
+        return
+
+    def qop(o):
+        return "%s %d" % (o[0], o[1]) if len(o) == 2 else o[0]
+    body = ("Local Open Scope Z_scope.\nDefinition qobs (b : btabs) := (b_inq b, b_active b, [Z.of_nat (List.length (b_gifts b)); "
+            "Z.of_nat (List.length (b_giftids b))]).\n"
+            "Definition qrun (l : list qop) := fold_left qstep l btabs0.\n")
+    for ops, _, _, _ in cases:
+        body += "Eval vm_compute in (qobs (qrun %s), qobs (qfinish (qrun %s))).\n" % ((common.coq_list([qop(o) for o in ops]),) * 2)
+    try:
+        vals = ctx.coq_eval("C09_conn_tables", body, requires=["Verif.lib.PyLite", "Verif.gen.RefsGen", "Verif.lib.Refs", "Verif.lib.Conn"])
+    except common.CoqEvalError as e:
+        ctx.fail("correspondence-broken", "lib/Conn.v could not be evaluated: " + str(e)[-800:], has_input=False)
+        return
+    bad = 0
+    for (ops, obs0, obs1, cfg), v in zip(cases, vals):
+        ctx.traces += 1
+        i0, a0, g0, (i1, a1, g1) = v
+        m0 = dict(inq=list(i0), active=sorted(a0), gifts=g0[0], giftids=g0[1])
+        m1 = dict(inq=list(i1), active=sorted(a1), gifts=g1[0], giftids=g1[1])
+        if (m0, m1) != (obs0, obs1):
+            bad += 1
+            if bad == 1:
+                ctx.fail("correspondence/conn-tables", "lib/Conn.v and the real Broker disagree for %r: before the loss model %r / Broker %r, "
+                         "after finish() model %r / Broker %r" % (cfg, m0, obs0, m1, obs1), replay=dict(case=list(cfg)), has_input=False)
+    ctx.extra["conn_tables_cases"] = len(cases)
